@@ -3,13 +3,14 @@
 open Util
 open Base
 open TypedDocs
+open TypedExt
 
 let kind_code = function
   | "control" -> Some 0 | "copyright" -> Some 1 | "release" -> Some 2 | "aptsource" -> Some 3
   | "aptpackage" -> Some 4 | "removal" -> Some 5 | "buildinfo" -> Some 6 | "dep3" -> Some 7
   | "repositories" -> Some 8 | _ -> None
 (* kinds with a field held in a hash container (Environment, Types) *)
-let kind_unordered k = (k = 6 || k = 8)
+let kind_unordered k = (k = 6 || k = 8)   (* kinds with a hash container: only the `ord` probe is left *)
 let unordered_keys = [hx (str_of_hex "5479706573"); hx (str_of_hex "456e7669726f6e6d656e74")]   (* "Types", "Environment" *)
 
 let sort_lines (hexv : string) : string =
@@ -73,31 +74,32 @@ let typed_doc (fs : string list) : string =
     let kn = n_of_int k in
     let s = str_of_hex (L.nth fs 1) in
     let tbl = parse_table (L.nth fs 2) in
-    let un = kind_unordered k in
+    let un = false in
+    let has_ord = kind_unordered k in
     let ll = ll_view s in
     let ly = if k = 2 || k = 3 || k = 4 then ly_view s else "" in
     let r =
-      match x_run kn tbl s with
+      match y_run kn tbl s with
       | TPanic _ -> "p=PANIC"
       | THang -> "HANG"
       | TErr e -> "p=" ^ err_s e
       | TOk o1 ->
-        let head = Printf.sprintf "p=OK|v=%s|t=%s" (dump un o1.x_paras) (text_s un o1.x_paras o1.x_text) in
+        let head = Printf.sprintf "p=OK|v=%s|t=%s" (dump un o1.y_paras) (text_s un o1.y_paras o1.y_text) in
         let second =
-          match x_run kn tbl o1.x_text with
+          match y_run kn tbl o1.y_text with
           | TPanic _ -> "|r=PANIC"
           | THang -> "HANG"
           | TErr e -> "|r=" ^ err_s e
           | TOk o2 ->
             let eq = if x_has_eq kn
-              then L.length o1.x_vals = L.length o2.x_vals && L.for_all2 Derive.sval_eqb o1.x_vals o2.x_vals
-              else dump un o1.x_paras = dump un o2.x_paras in
-            let same = if multi_unordered un o1.x_paras || multi_unordered un o2.x_paras
-              then dump un o1.x_paras = dump un o2.x_paras else o1.x_text = o2.x_text in
-            Printf.sprintf "|r=OK|v2=%s|eq=%s|t2=%s|same=%s" (dump un o2.x_paras) (bool_s eq)
-              (text_s un o2.x_paras o2.x_text) (bool_s same) in
+              then L.length o1.y_vals = L.length o2.y_vals && L.for_all2 xsval_eqb o1.y_vals o2.y_vals
+              else dump un o1.y_paras = dump un o2.y_paras in
+            let same = if multi_unordered un o1.y_paras || multi_unordered un o2.y_paras
+              then dump un o1.y_paras = dump un o2.y_paras else o1.y_text = o2.y_text in
+            Printf.sprintf "|r=OK|v2=%s|eq=%s|t2=%s|same=%s" (dump un o2.y_paras) (bool_s eq)
+              (text_s un o2.y_paras o2.y_text) (bool_s same) in
         if second = "HANG" then "HANG" else
-        head ^ second ^ (if un then "|ord=1" else "") in
+        head ^ second ^ (if has_ord then "|ord=1" else "") in
     if r = "HANG" || ll = "HANG" || ly = "HANG" then "HANG" else
     r ^ "|ll=" ^ ll ^ (if ly = "" then "" else "|ly=" ^ ly)
 
